@@ -168,6 +168,23 @@ class Run:
         self.solver.add(cond)
         r = self.solver.check()
         self.solver.pop()
+        if r == z3.unknown:
+            # the incremental solver gave up (nonlinear path condition): one more try on a fresh nonlinear solver before the branch is explored.
+            # Exploring an infeasible branch is sound but wasteful, and the code on it may leave the supported subset for no real reason.
+            try:
+                asserts, _ = ackermannize(list(self.pc) + [cond])
+                for mk, budget in ((_solver_nlsat, 4000), (_solver_default, 2000)):
+                    s2 = mk()
+                    if s2 is None:
+                        continue
+                    s2.set("timeout", budget)
+                    s2.add(*asserts)
+                    r2 = s2.check()
+                    if r2 != z3.unknown:
+                        r = r2
+                        break
+            except z3.Z3Exception:
+                pass
         self.feas_time += time.time() - t
         return r != z3.unsat  # unknown counts as feasible (sound: more paths explored)
 
